@@ -88,6 +88,17 @@ def c01_api(r, idx):
         f = tgt.field.add(); f.name, f.number, f.label, f.type, f.type_name = "tier", 71, 1, 14, en
         dep_protos.append(dep)
         feats.append("dependency-package")
+    if idx % 4 in (0, 3):
+        # a target file named by a reserved word that is not a keyword (type.proto / format.proto / list.proto): its module is
+        # always imported under an alias; its message is an rpc request and response type
+        nm = ["type", "format", "list", "any", "object", "license"][idx % 6]
+        tf = File(f"{api.dir}/{nm}.proto", api.package, deps=list(apigen.STD_DEPS))
+        tm = tf.message("TypedThing"); tm.field("name", 1, "string").field("size", 2, "int32")
+        tq = tf.message("GetTypedThingRequest"); tq.field("name", 1, "string")
+        api.main.dep(tf.proto.name)
+        api.services[0].rpc("GetTypedThing", tq.fqn, tm.fqn, http=("get", "/v1/{name=typedThings/*}"), sigs=["name"])
+        extra_files.append(tf)
+        feats.append("target-file-named-by-reserved-word")
     if idx % 2 == 1:
         # services that each have ONE streaming kind only (the typing imports of the clients are conditional per kind)
         ch = api.main.message("Chunk"); ch.field("data", 1, "bytes").field("name", 2, "string")
